@@ -68,11 +68,42 @@ def gen_watch(rng, n, ln):
 
 HOSTS = [b"example.com", b"a", b"localhost", b"foo-bar.baz", b"", b"1.2.3.4", b"256.1.1.1", b"::1", b"2001:db8::1", b"fe80::1%eth0",
          b"::", b"1.2.3", b"[::1]", b"[2001:db8::1]", b"[", b"]", b"[]", b"[a]b", b"a[b]", b"[::1", b"::1]", b"x:y:z", b"[[::1]]"]
+HOSTS += [b"::ffff:10.1.2.3", b"::ffff:a01:203", b"0:0:0:0:0:ffff:1.2.3.4", b"::1.2.3.4", b"64:ff9b::1.2.3.4", b"::ffff:1.2.3.4%z",
+          b"::FFFF:1.2.3.4", b"0000:0000:0000:0000:0000:ffff:0a01:0203", b"1:2:3:4:5:6:7:8", b"1:2:3:4:5:6:1.2.3.4", b"::ffff:0:1.2.3.4",
+          b"ff02::1%3", b"::ffff:256.1.1.1", b"1::", b"::ffff:", b"0.0.0.0", b"255.255.255.255", b"01.2.3.4"]
 PORTS = [b"80", b"443", b"", b"0", b"http", b"65536", b"8:0", b"[", b"]"]
+
+
+def rand_ip6(rng):
+    """every textual shape of an IPv6 literal: 0-8 hex groups, optional `::` compression at any position, optional dotted-quad
+    tail (IPv4-mapped / IPv4-compatible / NAT64 / arbitrary prefix), optional zone, upper/lower case, sometimes slightly broken"""
+    tail = rng.random() < 0.45
+    ng = rng.randrange(0, 7 if tail else 9)
+    groups = [rng.choice(["0", "ffff", "FFFF", "0000", "1", "a01", "%x" % rng.randrange(65536)]) for _ in range(ng)]
+    if rng.random() < 0.5 and ng >= 4:
+        groups[-1] = "ffff"           # ...:ffff:<v4 tail or last two groups>
+        for k in range(ng - 1):
+            groups[k] = rng.choice(["0", "0", "0000"])
+    if rng.random() < 0.7:
+        k = rng.randrange(0, ng + 1)
+        txt = ":".join(groups[:k]) + "::" + ":".join(groups[k:])
+    else:
+        txt = ":".join(groups)
+    if tail:
+        q = ".".join(str(rng.choice([0, 1, 10, 127, 255, 256, rng.randrange(256)])) for _ in range(rng.choice([4, 4, 4, 3])))
+        txt = txt + ("" if txt.endswith(":") or not txt else ":") + q
+    if rng.random() < 0.15:
+        txt += "%" + rng.choice(["eth0", "1", ""])
+    return txt.encode()
 
 
 def gen_targets(rng, n):
     ops = set()
+    for _ in range(max(200, n // 10)):
+        a = rand_ip6(rng)
+        ops.add("fmt " + hexs(a))
+        ops.add("parse %s %s" % (hexs(a), hexs(b"443")))
+        ops.add("parse %s %s" % (hexs(b"[" + a + b"]:80"), hexs(b"443")))
     for h in HOSTS:
         for d in (b"443", b"53"):
             ops.add("parse %s %s" % (hexs(h), hexs(d)))
